@@ -3,6 +3,9 @@
 ///
 /// The main idea behind separating backoff into an independent module is that
 /// it makes it easier to test and compare different backoff solutions.
+#[cfg(feature = "verif")]
+#[allow(unused_imports)]
+use crate::verif::{core, std};
 use core::{
     num::NonZeroUsize,
     sync::atomic::{AtomicU32, AtomicU8, AtomicUsize, Ordering},
@@ -96,6 +99,12 @@ pub fn randomize(d: usize) -> usize {
 // Initialized to 0, meaning that the parallelism degree has not been computed
 // yet.
 static PARALLELISM: AtomicUsize = AtomicUsize::new(0);
+
+/// Clears the cached parallelism (verification hook).
+#[cfg(feature = "verif")]
+pub(crate) fn verif_reset_parallelism() {
+    PARALLELISM.store(0, Ordering::SeqCst);
+}
 
 /// Retrieves the available degree of parallelism.
 /// If the degree of parallelism has not been computed yet, it computes and
